@@ -187,6 +187,17 @@ impl SSAStatement<Config> for Statement {
                     args.push(name.with_version(env_version));
                     self.propagate_types(&env.declarations);
                     self.cache_variable_use();
+                } else {
+                    // No version of the variable reaches the block along this edge: the
+                    // variable is still unassigned there and holds its default value. Record
+                    // that path with the unversioned name, so that the phi expression is not
+                    // mistaken for a merge of the assigned versions only.
+                    let unassigned = name.without_version();
+                    if !args.contains(&unassigned) {
+                        args.push(unassigned);
+                        self.propagate_types(&env.declarations);
+                        self.cache_variable_use();
+                    }
                 }
             }
             // If this is not a phi statement we panic.
